@@ -17,9 +17,9 @@ Proof. vm_compute. reflexivity. Qed.
 Lemma O7_ranks : forall b, In b (hop_roots O7) -> (rank6 (bs_root b) < 5)%nat.
 Proof. intros b Hb. cbn in Hb. repeat (destruct Hb as [Hb|Hb]; [subst b; cbn [bs_root]; vm_compute; lia|]). destruct Hb. Qed.
 
-Example hops7_clean : dvals7 = map (fun b => cv R7 (bs_env b) mixF 5 (bs_root b)) (hop_roots O7) /\ DInv R7 mixF dend7.
+Example hops7_clean : dvals7 = map (fun b => cv R7 (bs_env b) mixF 5 (bs_root b)) (hop_roots O7) /\ DInv mixF RT7 dend7.
 Proof.
-  pose proof (hops_values_clean R7 mixF rank6 ord6 all_sync R7_ranked R7_wfdisc ord6_ok 5 O7 (irestart true init_istate) dend7 dvals7 (DInv_new R7 mixF)) as H.
+  pose proof (hops_values_clean R7 mixF rank6 RT7 ord6 all_sync R7_ranked R7_wfdisc (fixedR_ok R7) ord6_ok 5 O7 (irestart true init_istate) dend7 dvals7 (DInv_new mixF RT7)) as H.
   specialize (H drun7_eq). specialize (H O7_ranks). exact H.
 Qed.
 (* ... and the computation agrees; the build after the first restart created no task *)
